@@ -36,6 +36,13 @@ Two halves.
     messages); nothing raises; Solve returns inside the evaluation horizon and a
     horizon on the number of Collapse() calls.  D: the same execution twice gives
     bit-identical logs (ownership of the randomness).
+
+(3) Section T: ONE termination object used by TWO solvers with different start points
+    (all interleavings of Step on A / B to a depth after several prefixes: nothing, two
+    steps each, A collapsed and B given the rebuilt object, a fresh B reusing the object
+    A ran with).  Every stop message, ``Collapsed(info=True)`` and ``Collapse()`` result
+    of a solver must be what the reference detector gives on THAT solver's own step
+    monitor - a condition may not answer from state kept inside the termination object.
 """
 import itertools, traceback, json
 import numpy as np
@@ -673,14 +680,28 @@ class Judge(object):
                 self.rels.append({'rel': 'position', 'i': pos[a], 'j': pos[b], 'start': ev.nlog})
                 self.kinds.append('position')
 
-    def _overlap(self, r):
-        """does an applied collapse of the other family (fix a parameter / tie two parameters) touch a
-        parameter of this one?  (classification only: two collapses whose constraints compete)"""
+    def _conflicts(self, r):
+        """the applied collapses of the other family (pin a parameter / tie two parameters) that touch a parameter of r"""
         def fam(q):
             return 'fix' if (q['rel'].startswith('at_') or q['rel'] == 'weight') else 'tie'
         mine = set(v for v in (r.get('i'), r.get('j')) if v is not None)
-        return any(o is not r and fam(o) != fam(r) and mine & set(v for v in (o.get('i'), o.get('j')) if v is not None)
-                   for o in self.rels)
+        return [o for o in self.rels if o is not r and fam(o) != fam(r)
+                and mine & set(v for v in (o.get('i'), o.get('j')) if v is not None)]
+
+    def _overlap(self, r):
+        """classification only: two collapses whose constraints compete for one parameter"""
+        return bool(self._conflicts(r))
+
+    def _osig(self, r):
+        """signature fields about competing collapses.  overlap_kind (only when overlap is true):
+             'same_collapse'    - EVERY competing pin/tie collapse on a parameter of the failing relation was applied by the
+                                  same Collapse() call that applied the failing relation itself;
+             'across_collapses' - at least one of them was applied by a different Collapse() call (older or newer).
+        Deterministic: it depends only on which Collapse() call (numbered in order) applied each relation."""
+        c = self._conflicts(r)
+        if not c:
+            return {'overlap': False}
+        return {'overlap': True, 'overlap_kind': 'same_collapse' if all(o['call'] == r['call'] for o in c) else 'across_collapses'}
 
     def _holds(self, r, x, T=None):
         """None = holds, else text"""
@@ -718,7 +739,7 @@ class Judge(object):
         driver = 'Solve' if name == 'Solve' else 'manual'
         abnormal = isinstance(outcome, tuple) and outcome and outcome[0] in ('HORIZON', 'RAISED')
         # ---- collapse events since the last operation
-        for ev in lab.events[self.nev:]:
+        for call_no, ev in enumerate(lab.events[self.nev:], self.nev):
             if ev.raised is not None or ev.returned is None:
                 continue
             applied = {}
@@ -753,7 +774,10 @@ class Judge(object):
                     out.append((dict(base, clause='reported_twice', kind=kind),
                                 'Collapse() applied %s of %s again (mask before the call: %s)' % (_fmt(again), kind, _fmt(mask))))
                 self.applied.setdefault(ident, set()).update(items)
+                n0 = len(self.rels)
                 self._add_relations(ev, kind, kw, items)
+                for q in self.rels[n0:]:
+                    q['call'] = call_no          # which Collapse() call applied it
         self.nev = len(lab.events)
         # ---- every point evaluated after a collapse satisfies every relation applied before it
         log = lab.cost.log
@@ -768,7 +792,7 @@ class Judge(object):
                         bad[r['rel']] = (r, 'cost call #%d at %r: %s (collapse applied before call #%d)' % (idx, list(x), why, r['start']))
         self.nlog = len(log)
         for rel, (r, text) in bad.items():
-            out.append((dict(base, clause='evaluated_point', relation=rel, overlap=self._overlap(r)), '%s [driver: %s]' % (text, driver)))
+            out.append((dict(base, clause='evaluated_point', relation=rel, **self._osig(r)), '%s [driver: %s]' % (text, driver)))
         # ---- stop messages never name something already applied / masked
         msg = outcome if (name in ('Step', 'StepTo') and isinstance(outcome, str)) else None
         if name == 'Solve' and not abnormal:
@@ -800,7 +824,7 @@ class Judge(object):
                     seen.add(r['rel'])
                     # observed from the call log: was this best point last evaluated before the collapse was applied?
                     stale = (not any(l[0] == best for l in log[r['start']:])) and any(l[0] == best for l in log[:r['start']])
-                    out.append((dict(base, clause='final_solution', relation=r['rel'], overlap=self._overlap(r), best_predates_collapse=stale),
+                    out.append((dict(base, clause='final_solution', relation=r['rel'], best_predates_collapse=stale, **self._osig(r)),
                                 'stopped with %r; bestSolution = %r: %s%s [driver: %s]'
                                 % ((msg or '')[:60], list(best), why,
                                    ' (this point was evaluated before the collapse and never after it)' if stale else '', driver)))
@@ -924,13 +948,182 @@ def shard_determinism(item):
     return T
 
 
+
+# ====================================================================== T: one termination object, two solvers
+# A Collapse* condition must answer from the history of the solver it is asked about.  Two solvers with
+# different start points share ONE termination object; after every operation the stop message returned by
+# Step, solver.Collapsed(info=True) and what Collapse() applies are compared with the reference detector
+# evaluated on THAT solver's own step monitor.
+SHARED_TERMS = {
+    'at0_as': ['Or', ['COG', 1e-12, 30], ['At', 0.0, T4, 2, None], ['As', False, T4, 2, None]],
+    'at_none_g1': ['Or', ['COG', 1e-12, 30], ['At', None, T4, 1, None]],
+    'as_wide': ['Or', ['COG', 1e-12, 30], ['As', False, 0.5, 1, None]],
+    'at_list': ['Or', ['COG', 1e-12, 30], ['At', LIST_TARGET, 0.25, 2, [0]]],
+}
+SHARED_STARTS = {'A': [2.0 ** -5, 0.5, 0.75], 'B': [0.875, -0.375, 1.375]}
+SHARED_PAIRS = [('NM', 'NM'), ('DE', 'DE'), ('NM', 'Powell'), ('DE2', 'NM')]
+SHARED_DEPTH = 6
+
+
+def shared_cfg(solver, who, seed):
+    return {'solver': solver, 'seed': seed + (0 if who == 'A' else 7), 'term': None, 'term11': None, 'setup': 'flat3', 'cost': 'flat',
+            'dim': 3, 'x0': SHARED_STARTS[who], 'limits': [200, 3000], 'horizon': 4000, 'init': 'point', 'initbox': 'unit', 'npop': 4}
+
+
+def own_history_says(solver):
+    """{identity: (kind, expected set, gated)} from the reference detector on this solver's own step monitor"""
+    hist = [tuple(float(v) for v in x) for x in solver._stepmon._x]
+    lg = len(solver.energy_history)
+    out = {}
+    for ident, (kind, kw, mask) in L.collapse_state(solver._termination).items():
+        if not hist:
+            out[ident] = (kind, set(), True)
+            continue
+        if kind == 'CollapseAt':
+            want = ref.at_ref(hist, kw.get('target'), kw['tolerance'], kw['generations'], mask)
+        elif kind == 'CollapseAs':
+            want = ref.as_ref(hist, bool(kw.get('offset')), kw['tolerance'], kw['generations'], mask)
+        else:
+            continue
+        out[ident] = (kind, want, lg <= kw['generations'])
+    return out
+
+
+def shared_judge(T, who, via, got, want, case, text):
+    """got: {identity: set} reported for solver `who`; want: own_history_says(solver)"""
+    for ident, (kind, exp, gated) in want.items():
+        g = got.get(ident, set())
+        extra = g - exp
+        missing = set() if gated else exp - g     # too short a history: only 'nothing the history does not meet' is judged
+        if extra or missing:
+            T.violate({'half': 'solver', 'clause': 'shared_termination', 'dir': 'extra' if extra else 'missing', 'via': via, 'kind': kind},
+                      case, '%s: %s of solver %s reports %s for %s; its own step monitor gives %s (%s)'
+                      % (text, via, who, _fmt(g), kind, _fmt(exp), 'reported although its history does not meet the definition' if extra
+                         else 'not reported'))
+    for ident in got:
+        if ident not in want:
+            T.violate({'half': 'solver', 'clause': 'shared_termination', 'dir': 'unknown_condition', 'via': via, 'kind': ident[0]},
+                      case, '%s: %s of solver %s names %r which is not in its termination' % (text, via, who, ident))
+
+
+def _collapsed_sets(d):
+    out = {}
+    for doc, items in (d or {}).items():
+        ident = _doc_ident(doc)
+        out[ident] = L.canon_mask(ident[0], items)
+    return out
+
+
+def run_shared(case, T):
+    """case: {'kind':'shared','pair','term','seed','prefix','ops','probe'}; ops over StepA/StepB/CollapseA/CollapseB/
+    RunA (step A to its stop) / ShareAB (B takes the termination object A holds now) / FreshB (a new solver B with that object)"""
+    spec = SHARED_TERMS[case['term']]
+    term = L.build_term(spec)
+    labs = {}
+    for who, solver in zip('AB', case['pair']):
+        labs[who] = L.Lab11(shared_cfg(solver, who, case['seed']))
+        with labs[who]._env():
+            labs[who].solver.SetTermination(term)      # the SAME object for both
+    done = []
+    text0 = '%s+%s sharing one %s' % (case['pair'][0], case['pair'][1], spec)
+    for op in list(case['prefix']) + list(case['ops']):
+        done.append(op)
+        who = op[-1]
+        lab = labs[who]
+        s = lab.solver
+        text = '%s after %s' % (text0, done)
+        c = dict(case, ops_done=list(done))
+        T.count('transitions')
+        try:
+            if op.startswith('Step'):
+                with lab._env():
+                    msg = s.Step()
+                if msg:
+                    shared_judge(T, who, 'Step message', L.parse_message(msg), own_history_says(s), c, text)
+                    T.hist('T:step_message', 'collapse' if L.parse_message(msg) else 'other stop')
+            elif op.startswith('Run'):
+                msg = None
+                for _ in range(40):
+                    with lab._env():
+                        msg = s.Step()
+                    if msg:
+                        break
+                if msg:
+                    shared_judge(T, who, 'Step message', L.parse_message(msg), own_history_says(s), c, text)
+            elif op.startswith('Collapse'):
+                want = own_history_says(s)
+                with lab._env():
+                    r = s.Collapse()
+                if r:
+                    T.hist('T:collapse_applied', who)
+                    shared_judge(T, who, 'Collapse()', _collapsed_sets(r), want, c, text)
+            elif op == 'ShareAB':
+                with labs['B']._env():
+                    labs['B'].solver.SetTermination(labs['A'].solver._termination)
+            elif op == 'FreshB':
+                obj = labs['A'].solver._termination if case.get('fresh_uses') == 'current' else term
+                labs['B'] = L.Lab11(shared_cfg(case['pair'][1], 'B', case['seed']))
+                with labs['B']._env():
+                    labs['B'].solver.SetTermination(obj)
+        except solverlab.Horizon as e:
+            T.violate({'half': 'solver', 'clause': 'runaway', 'section': 'shared'}, c, '%s: horizon (%s)' % (text, e))
+            break
+        except Exception as e:
+            T.violate({'half': 'solver', 'clause': 'raised', 'section': 'shared', 'error': type(e).__name__}, c,
+                      '%s: raised %s' % (text, _err(e)))
+            break
+        if case['probe']:
+            for w in 'AB':
+                sv = labs[w].solver
+                if not len(sv._stepmon):
+                    continue
+                with labs[w]._env():
+                    got = sv.Collapsed(info=True)
+                shared_judge(T, w, 'Collapsed(info=True)', _collapsed_sets(got), own_history_says(sv), c, text)
+                T.hist('T:probe', 'reports a collapse' if got else 'nothing')
+    T.count('traces')
+    same = labs['A'].solver._termination is labs['B'].solver._termination
+    T.hist('T:object_shared_at_the_end', same)
+    gens = (len(labs['A'].solver.energy_history), len(labs['B'].solver.energy_history))
+    T.state(('shared', case['pair'], case['term'], case['seed'], tuple(done), gens,
+             tuple(float(v) for v in labs['A'].solver.bestSolution), tuple(float(v) for v in labs['B'].solver.bestSolution)))
+    if gens[0] == gens[1] and gens[0] > 0:
+        T.nontriv(('shared', case['pair'], case['term'], tuple(done), case['probe']))
+    return labs
+
+
+SHARED_PREFIXES = [
+    ('common prefix', [], None),
+    ('two steps each', ['StepA', 'StepA', 'StepB', 'StepB'], None),
+    ('A collapsed, B takes the rebuilt object', ['RunA', 'CollapseA', 'ShareAB'], None),
+    ('A ran to its stop, fresh B reuses the object', ['RunA', 'FreshB'], 'original'),
+    ('A collapsed, fresh B reuses the rebuilt object', ['RunA', 'CollapseA', 'FreshB'], 'current'),
+]
+
+
+def shard_shared(item):
+    pair, term, seed, depth = item
+    T = Tally()
+    for name, prefix, fresh in SHARED_PREFIXES:
+        for probe in (False, True):
+            for tail in itertools.product(('StepA', 'StepB'), repeat=depth):
+                ops = list(tail) + ['CollapseA', 'CollapseB', 'StepA', 'StepB']
+                case = {'kind': 'shared', 'pair': list(pair), 'term': term, 'seed': seed, 'prefix': prefix, 'ops': ops,
+                        'probe': probe, 'fresh_uses': fresh}
+                run_shared(case, T)
+                T.hist('T:scenario', name)
+    T.sample({'section': 'one termination object, two solvers', 'pair': list(pair), 'termination': SHARED_TERMS[term],
+              'starts': SHARED_STARTS, 'prefix': SHARED_PREFIXES[2][1], 'ops': ['StepA', 'StepB', 'StepB', 'StepA', 'StepA', 'StepB', 'CollapseA', 'CollapseB', 'StepA', 'StepB']}, 1)
+    return T
+
+
 # ====================================================================== driver
 def _dispatch(item):
     import time
     sect, payload = item
     t0 = time.process_time()
     T = {'A': shard_at, 'S': shard_as, 'W': shard_measure, 'P': shard_measure, 'K': shard_cost,
-         'X': shard_solver, 'D': shard_determinism}[sect](payload)
+         'X': shard_solver, 'D': shard_determinism, 'T': shard_shared}[sect](payload)
     T.count('cpu_ms_section_%s' % sect, int(1000 * (time.process_time() - t0)))
     T.count('shards_section_%s' % sect)
     return T
@@ -1021,6 +1214,10 @@ def solver_items(ctx):
             continue     # the last DE population gets the structured histories and the stop points only
         for first in range(len(OPS)):
             items.append(('X', (cfg, 'general', (depth - 1 if cfg['setup'] == 'meas22' else depth, first))))
+    for pair in (SHARED_PAIRS if th else SHARED_PAIRS[:3]):
+        for term in (sorted(SHARED_TERMS) if th else ['at0_as', 'at_none_g1', 'as_wide']):
+            for seed in ([ctx.seed] + ([ctx.seed + 1] if th else [])):
+                items.append(('T', (pair, term, seed, SHARED_DEPTH if th else SHARED_DEPTH - 1)))
     det = [solver_cfg(sv, 'flat3', 'at0_as', ctx.seed, 'random' if sv.startswith('DE') else 'point') for sv in solverlab.SOLVERS]
     items.append(('D', det))
     return items, cfgs, depth
@@ -1069,6 +1266,12 @@ def run(ctx):
                     'seeds': sorted(set(c['seed'] for c in cfgs)), 'DE_populations': 'NP=4; single start point (seed s) and random in [-1,2]^n (seed s+1); the last seed gets the structured histories and stop points only',
                     'limits(generations,evaluations)': {'default': [120, 1500], 'no_stop': [40, 400]},
                     'evaluation_horizon': 4000, 'collapse_call_horizon': L.MAX_COLLAPSE_CALLS},
+        'shared_termination': {'pairs': SHARED_PAIRS if ctx.thorough else SHARED_PAIRS[:3],
+                               'terminations': SHARED_TERMS if ctx.thorough else {k: SHARED_TERMS[k] for k in ('at0_as', 'at_none_g1', 'as_wide')}, 'starts': SHARED_STARTS,
+                               'scenarios': [[n, p] for n, p, f in SHARED_PREFIXES],
+                               'interleavings': 'after each scenario prefix: ALL sequences of length %d over {StepA, StepB}, then CollapseA, CollapseB, StepA, StepB; '
+                                                'each once judging only what the library itself evaluates (Step messages, Collapse()) and once also probing '
+                                                'Collapsed(info=True) of both solvers after every operation' % (SHARED_DEPTH if ctx.thorough else SHARED_DEPTH - 1)},
     }
     ctx.rule = ("detectors: a case is one (history, tolerance, window, target/offset, mask) tuple evaluated on a real Monitor; ALL histories of "
                 "each stated length over {0,1e-5,1}^dim are used. distinct_nontrivial counts distinct (window content, setting) classes in which "
@@ -1087,7 +1290,10 @@ def run(ctx):
         "CollapseAt(target=None) fixes a parameter 'at its target' = at one constant value from the collapse on (which value is recorded, not judged)",
         "CollapseAs(offset=True): the statement names only 'equal to its partner'; the imposed relation (x[j] = x[i] + True) is recorded, not judged",
         "the final solution is judged when Solve returns or a Step reports a stop that is not a pending collapse",
-        "violation signatures carry overlap=True when an applied collapse of the other family (fix a parameter / tie a pair) touches the same parameter (competing constraints)",
+        "violation signatures carry overlap=True when an applied collapse of the other family (fix a parameter / tie a pair) touches the same parameter (competing constraints); "
+        "overlap_kind says whether all competing collapses came from the same Collapse() call as the failing one (same_collapse) or not (across_collapses)",
+        "section T: while a solver's history is not longer than the window (the factories report nothing then) only 'nothing is reported that "
+        "the history does not meet' is judged; afterwards the report must equal the reference detector on the solver's own monitor",
         "ensemble Collapse is documented as not implemented: out of scope",
     ]
     ctx.pmap(_dispatch, items)
@@ -1122,4 +1328,10 @@ def replay(case):
         cost_case(T, [tuple(x) for x in case['xs']], case['ys'], case['limit'], case['samples'], case['clip'])
     elif kind == 'solver':
         run_trace(case['cfg'], case['ops'], T)
+    elif kind == 'shared':
+        c = dict(case)
+        if 'ops_done' in c:      # re-run exactly the operations that had been executed when the case was recorded
+            n = len(c['prefix'])
+            c['prefix'], c['ops'] = c['ops_done'][:n], c['ops_done'][n:]
+        run_shared(c, T)
     return [v['detail'] for v in T.violations.values()]
